@@ -258,10 +258,12 @@ def ufunc_class_factory(name, nargin, nargout, docstring):
             else:
                 return getattr(x[0].ufuncs, name)(*x[1:])
         else:
+            # Ufuncs with 2 outputs return a tuple, not `out`
             if nargin == 1:
-                return getattr(x.ufuncs, name)(out=out)
+                getattr(x.ufuncs, name)(out=out)
             else:
-                return getattr(x[0].ufuncs, name)(*x[1:], out=out)
+                getattr(x[0].ufuncs, name)(*x[1:], out=out)
+            return out
 
     def __repr__(self):
         """Return ``repr(self)``."""
